@@ -16,7 +16,8 @@ import Driver.Wire
   ORD    for `undo`: the order in which the edited files are patched (a HashMap in the code)
   inj    none | fail k | cb k | ca k | cm k
 
-  answer:  <outcome>|<op>;<op>;…|<user tree>|H=<absent|bad|[entries]>|L=<absent|empty|full>|P=<0|1>
+  answer:  <outcome>|<op>;<op>;…|<user tree>|H=<absent|bad|[entries]>|L=<absent|empty|full>|P=<0|1>|X=<0|1>
+           (X: a leftover `renamify.lock.<pid>.tmp` exists)
 -/
 open B Fs Apply Exec
 
@@ -39,6 +40,7 @@ def showOp (x : Op × Option Errno) : String :=
     | .write p _ => s!"write {pathStr p}"
     | .chmod p m => s!"chmod {pathStr p} {Wire.toOctal (0o100000 + m)}"
     | .rename a b sa sb => s!"rename {pathStr a}{if sa then "/" else ""} {pathStr b}{if sb then "/" else ""}"
+    | .link a b => s!"link {pathStr a} {pathStr b}"
     | .unlink p => s!"unlink {pathStr p}"
     | .rmdir p => s!"rmdir {pathStr p}"
     | .logLine => "log"
@@ -102,7 +104,10 @@ def digest (cmd : String) (t : Tree) : String :=
   let p := match lookup t (pStored id) with
     | some (.file c _) => if c.isEmpty then "0" else "1"
     | _ => "0"
-  s!"{Wire.showTree (userTree t)}|H={h}|L={l}|P={p}"
+  let x := match lookup t pLockTmp with
+    | some _ => "1"
+    | none => "0"
+  s!"{Wire.showTree (userTree t)}|H={h}|L={l}|P={p}|X={x}"
 
 def exectrace : List String → String
   | cmd :: setup :: rest =>
